@@ -31,30 +31,24 @@ MODE_ARGS = {  # mode -> (beta, valid_mixture, extra denominator E)
 
 
 def configs(quick):
-    """(V, T, W, D, mode, dists, lmvars)"""
-    out = []
-    for W in (1, 2, 3, 20):
-        out.append((2, 3, W, 4, "none", "AllDists", "{0}"))
-    for W in (1, 2, 40):
-        out.append((1, 4, W, 3, "none", "AllDistsZ", "{0}"))
-        out.append((2, 2, W, 4, "none", "AllDistsZ", "{0}"))
-    for T in (0, 1):
-        out.append((2, T, 3, 4, "none", "AllDistsZ", "{0}"))
+    """(V, T, widths, D, mode, dists, lmvars)"""
+    out = [
+        (2, 3, (1, 2, 3, 20), 4, "none", "AllDists", "{0}"),
+        (1, 4, (1, 2, 40), 3, "none", "AllDistsZ", "{0}"),
+        (2, 2, (1, 2, 40), 4, "none", "AllDistsZ", "{0}"),
+        (2, 1, (3,), 4, "none", "AllDistsZ", "{0}"),
+        (2, 0, (3,), 4, "none", "AllDistsZ", "{0}"),
+    ]
     for mode in ("fusion", "mix_half", "mix_one"):
-        for W in (1, 2, 20):
-            out.append((2, 3, W, 4, mode, "PosDists", "{0, 1}"))
-        out.append((2, 2, 3, 5, mode, "PosDists", "{0, 1}"))
+        out.append((2, 3, (1, 2, 20), 4, mode, "PosDists", "{0, 1}"))
+        out.append((2, 2, (3,), 5, mode, "PosDists", "{0, 1}"))
     if not quick:
         # T = 4: the all-alignments oracle enumerates 3^4 alignments per prefix and state
-        for W in (1, 2, 3, 60):
-            out.append((2, 4, W, 4, "none", "PosDists", "{0}"))
-        for W in (2, 4):
-            out.append((3, 3, W, 5, "none", "PosDists", "{0}"))
-        for W in (2, 60):
-            out.append((1, 5, W, 3, "none", "AllDistsZ", "{0}"))
+        out.append((2, 4, (1, 2, 3, 60), 4, "none", "PosDists", "{0}"))
+        out.append((3, 3, (2, 4), 5, "none", "PosDists", "{0}"))
+        out.append((1, 5, (2, 60), 3, "none", "AllDistsZ", "{0}"))
         for mode in ("fusion", "mix_half"):
-            for W in (2, 60):
-                out.append((2, 4, W, 4, mode, "PosDists", "{0, 1}"))
+            out.append((2, 4, (2, 60), 4, mode, "PosDists", "{0, 1}"))
     return out
 
 
@@ -62,16 +56,16 @@ def run_tlc(ctx):
     cfgs = configs(ctx.quick)
     results = [None] * len(cfgs)
     errs = []
-    sem = threading.Semaphore(4)
+    sem = threading.Semaphore(3)
 
     def job(i, c):
-        V, T, W, D, mode, dists, lmv = c
+        V, T, Ws, D, mode, dists, lmv = c
         with sem:
             try:
                 path = os.path.join(ctx.workdir, "ctc_%d.cfg" % i)
-                tlc.write_cfg(path, constants=dict(V=V, T=T, W=W, D=D, Mode='"%s"' % mode, Dists=("<-", dists), LMVars=lmv),
+                tlc.write_cfg(path, constants=dict(V=V, T=T, Ws="{%s}" % ", ".join(map(str, Ws)), D=D, Mode='"%s"' % mode, Dists=("<-", dists), LMVars=lmv),
                               invariants=["NoPruneIsExact", "NeverMore", "Shape", "Positive", "MassConserved", "Export"])
-                results[i] = tlc.run(MOD, path, workers=4, timeout=3000, coverage=(i < 3))
+                results[i] = tlc.run(MOD, path, workers=8, timeout=3000, coverage=(T <= 2 and mode == "none"))
             except Exception as ex:
                 errs.append(ex)
 
@@ -84,14 +78,14 @@ def run_tlc(ctx):
         raise errs[0]
     cases = {}
     for c, res in zip(cfgs, results):
-        name = "CTCPrefix/V%d_T%d_W%d_D%d_%s" % c[:5]
+        name = "CTCPrefix/V%d_T%d_W%s_D%d_%s" % (c[0], c[1], "-".join(map(str, c[2])), c[3], c[4])
         tlc.require_ok(res, name)
         if c[1] > 0 and res.coverage:
             tlc.require_covered(res, ["Frame"], name)
         ctx.add_tlc(name, res)
-        V, T, W, D, mode, _, _ = c
+        V, T, _, D, mode, _, _ = c
         for r in res.records:
-            key = (V, T, W, D, mode, r["lmv"], tuple(tuple(f) for f in r["P"]))
+            key = (V, T, r["W"], D, mode, r["lmv"], tuple(tuple(f) for f in r["P"]))
             cases.setdefault(key, []).append(r)
     if not cases:
         raise MachineryError("no CTC cases exported")
@@ -273,7 +267,7 @@ def replay(ctx, case):
         f.write("---- MODULE CTCReplay ----\nEXTENDS CTCPrefix\nOneP == {%s}\n====\n" % ", ".join(
             "<<" + ", ".join(str(x) for x in fr) + ">>" for fr in {tuple(fr) for fr in k["P"]}))
     cfg = os.path.join(ctx.workdir, "CTCReplay.cfg")
-    tlc.write_cfg(cfg, constants=dict(V=k["V"], T=k["T"], W=k["W"], D=k["D"], Mode='"%s"' % k["mode"], Dists=("<-", "OneP"), LMVars="{%d}" % k["lmv"]),
+    tlc.write_cfg(cfg, constants=dict(V=k["V"], T=k["T"], Ws="{%d}" % k["W"], D=k["D"], Mode='"%s"' % k["mode"], Dists=("<-", "OneP"), LMVars="{%d}" % k["lmv"]),
                   invariants=["Export"])
     res = tlc.run(mcpath, cfg, workers=2, lib=SPECS, coverage=False)
     tlc.require_ok(res, "CTCReplay")
